@@ -300,26 +300,55 @@ def spell(rng, v, floats=0.25):
     return repr(float(v)).replace("e+", rng.choice(["e+", "e", "E"]))
 
 
+def split_count(rng, c, k):
+    """k non-negative integers; their sum is c, or - when c is 2^64-1 - sometimes MORE than c (the clamp is what the line says)"""
+    if c == U64 and rng.random() < 0.8:
+        if k == 2:
+            return list(rng.choice([[U64, 1], [2**63, 2**63], [1, U64], [U64, 0], [U64, U64]]))
+        return list(rng.choice([[2**63, 2**63 - 1, 5], [U64, U64, U64], [U64 - 1, 0, 2], [0, U64, 0], [2**63, 1, 2**63]]))
+    cuts = sorted(rng.randrange(0, c + 1) for _ in range(k - 1))
+    parts = [b_ - a_ for a_, b_ in zip([0] + cuts, cuts + [c])]
+    if rng.random() < 0.3:
+        parts = [0] * (k - 1) + [c]        # f never ran, g did (or the converse)
+        rng.shuffle(parts)
+    return parts
+
+
 def json_tree(rng, files, floats=0.25, dups=True):
-    """model -> tree with number TOKENS (strings), the shape gcov 9+ writes."""
+    """model -> tree with number TOKENS (strings), the shape gcov 9+ writes.  With dups, a line of the model is often
+    listed in 2-3 entries (one per function sharing it, different "function_name"s, interleaved with the entries of
+    other lines): the entries' counts sum to the line's count and their branch lists concatenate to its branch list."""
     tree = []
     for f in files:
         funs = []
         for g in f["funcs"]:
             funs.append({"name": "_Z" + g["name"].hex(), "demangled_name": g["name"], "start_line": str(g["start"]),
                          "execution_count": spell(rng, g["count"], floats)})
-        lines = []
+        groups = []
         for l in f["lines"]:
             brs = []
             for k in l["branches"]:
                 c = 0 if k != "taken" else rng.choice([1, 1, 2, 2**32, 2**53, U64, count(rng) or 1])
                 brs.append(spell(rng, c, floats))
-            if dups and rng.random() < 0.15:
-                # the same line listed earlier for a function instance (template, inline): the later entry stands
-                for _ in range(rng.choice([1, 2])):
-                    eb = [spell(rng, rng.choice([0, 1, 5]), floats) for _ in range(rng.choice([0, len(brs), 1]) if brs else 0)]
-                    lines.append({"line_number": str(l["line"]), "count": spell(rng, count(rng), floats), "branches": eb})
-            lines.append({"line_number": str(l["line"]), "count": spell(rng, l["count"], floats), "branches": brs})
+            k = rng.choice([2, 2, 3]) if dups and rng.random() < 0.4 else 1
+            counts = split_count(rng, l["count"], k) if k > 1 else [l["count"]]
+            k = len(counts)
+            # consecutive chunks of the branch list (some empty: an entry without branches next to one with)
+            cuts = sorted(rng.randrange(0, len(brs) + 1) for _ in range(k - 1))
+            chunks = [brs[a_:b_] for a_, b_ in zip([0] + cuts, cuts + [len(brs)])]
+            names = rng.sample(["f", "g", "_ZN1AIiE1fEv", "_ZN1AIcE1fEv", None, "main"], k)
+            groups.append([{"line_number": str(l["line"]), "count": spell(rng, c, floats), "branches": ch, "function_name": nm}
+                           for c, ch, nm in zip(counts, chunks, names)])
+        # interleave the entries of different lines, keeping the order of the entries of each line
+        lines = []
+        if rng.random() < 0.5:
+            for g in groups:
+                lines += g
+        else:
+            pending = [list(g) for g in groups]
+            while any(pending):
+                g = rng.choice([p for p in pending if p])
+                lines.append(g.pop(0))
         tree.append({"file": f["name"], "functions": funs, "lines": lines})
     return tree
 
@@ -340,7 +369,10 @@ def render_json(rng, tree, drop=None, version="1"):
         lines = []
         for l in f["lines"]:
             brs = ['{"count": %s, "fallthrough": %s, "throw": false}' % (b, rng.choice(["true", "false"])) for b in l["branches"]]
-            fname = "" if rng.random() < 0.3 else '"function_name": "f", '
+            if "function_name" in l:
+                fname = "" if l["function_name"] is None else '"function_name": %s, ' % json.dumps(l["function_name"])
+            else:
+                fname = "" if rng.random() < 0.3 else '"function_name": "f", '
             extra = '"calls": [], ' if rng.random() < 0.2 else ""
             lines.append('{"branches": [%s], %s"count": %s, %s"line_number": %s, "unexecuted_block": %s}'
                          % (", ".join(brs), extra, l["count"], fname, l["line_number"], rng.choice(["true", "false"])))
@@ -413,9 +445,11 @@ def ref_tree(tree):
             bs = [ref_counter(b) for b in l["branches"]]
             if c is None or None in bs:
                 return None
-            lines[n] = c
+            # a line listed several times (once per function containing it) ran as often as all its entries
+            # together (what 64 bits can hold of it), and has the branches of every entry, in entry order
+            lines[n] = min(lines.get(n, 0) + c, U64)
             if bs:
-                br[n] = [b > 0 for b in bs]
+                br.setdefault(n, []).extend(b > 0 for b in bs)
         for g in f["functions"]:
             c = ref_counter(g["execution_count"])
             if c is None:
@@ -492,9 +526,9 @@ def ref_json_value(v):
         for l in f["lines"]:
             c = int(l["count"])
             assert c == l["count"] and 0 <= c <= U64
-            lines[l["line_number"]] = c
+            lines[l["line_number"]] = min(lines.get(l["line_number"], 0) + c, U64)
             if l["branches"]:
-                br[l["line_number"]] = [b["count"] > 0 for b in l["branches"]]
+                br.setdefault(l["line_number"], []).extend(b["count"] > 0 for b in l["branches"])
         for g in f["functions"]:
             fn[g["demangled_name"].encode()] = (g["start_line"], g["execution_count"] != 0)
         if lines:
